@@ -1,6 +1,6 @@
 (* Props/C17.v — like(text, pattern) implements SQL LIKE exactly.
    ONLY statements: each closed by [exact <lemma>] with Print Assumptions beneath. *)
-From RBQL Require Import Base Like Like_Proofs.
+From RBQL Require Import Base PyStr JsStr Like Like_Proofs LikeIx LikeIx_Proofs.
 
 (* For both flavours (Python re / JS RegExp), on single-line texts, like = SQL LIKE *)
 Theorem C17_like_correct : forall (fl : flavour) (t p : str),
@@ -30,3 +30,45 @@ Print Assumptions C17_nonvacuous.
 Example C17_lf_note : like Py [ca; LF] [ca] = true /\ ~ SqlLike [ca; LF] [ca].
 Proof. exact like_lf_dollar. Qed.
 Print Assumptions C17_lf_note.
+
+(* ---- the pattern TEXT (task gen2; LikeIx.v).  ix_like_to_regex / jsix_like_to_regex are the index-style models of like_to_regex of
+   rbql_engine.py / rbql.js (integer positions, s[i], s[p:i] / substring, re.escape / regexp_escape, text concatenation); on every run of
+   ./check C17 the source is translated again and proved equal to them (generated obligations gen_like_to_regex_eq, gen_js_like_to_regex_eq). *)
+
+(* the index models write the text of the token list of Like.like_to_regex: anchors, the literal runs escaped, a dot, a dot and a star *)
+Theorem C17_index_model_like_to_regex : forall p : str, ix_like_to_regex p = render py_re_escape (like_to_regex p).
+Proof. exact ix_like_to_regex_correct. Qed.
+Print Assumptions C17_index_model_like_to_regex.
+
+Theorem C17_js_index_model_like_to_regex : forall p : str, jsix_like_to_regex p = render jsix_regexp_escape (like_to_regex p).
+Proof. exact jsix_like_to_regex_correct. Qed.
+Print Assumptions C17_js_index_model_like_to_regex.
+
+(* the reader of the emitted fragment of the regular-expression syntax (parse_pattern: escaped characters, plain non-special characters,
+   dot, dot-star, anchors; everything else is not read) reads that text back as EXACTLY the token list - in particular re.escape /
+   regexp_escape escape every character that has a meaning, and only characters whose escape is the character itself *)
+Theorem C17_pattern_text_read_back_py : forall p : str, parse_pattern Py (ix_like_to_regex p) = Some (like_to_regex p).
+Proof. exact ix_like_text_read_back. Qed.
+Print Assumptions C17_pattern_text_read_back_py.
+
+Theorem C17_pattern_text_read_back_js : forall p : str, parse_pattern Js (jsix_like_to_regex p) = Some (like_to_regex p).
+Proof. exact jsix_like_text_read_back. Qed.
+Print Assumptions C17_pattern_text_read_back_js.
+
+(* C17_like_correct for the text: matching the emitted pattern text is SQL LIKE on single-line texts *)
+Theorem C17_like_correct_text_py : forall t p : str, single_line Py t -> (regex_like Py (ix_like_to_regex p) t = true <-> SqlLike t p).
+Proof. exact ix_like_correct. Qed.
+Print Assumptions C17_like_correct_text_py.
+
+Theorem C17_like_correct_text_js : forall t p : str, single_line Js t -> (regex_like Js (jsix_like_to_regex p) t = true <-> SqlLike t p).
+Proof. exact jsix_like_correct. Qed.
+Print Assumptions C17_like_correct_text_js.
+
+(* the texts: a%b_.c under both ports; a bare star, or a dot-star followed by a question mark, is outside the fragment *)
+Example C17_text_examples :
+  ix_like_to_regex [97; 37; 98; 95; 46; 99]%N = [94; 97; 46; 42; 98; 46; 92; 46; 99; 36]%N /\
+  jsix_like_to_regex [97; 37; 98; 95; 46; 99]%N = [94; 97; 46; 42; 98; 46; 92; 46; 99; 36]%N /\
+  ix_like_to_regex [32; 45]%N = [94; 92; 32; 92; 45; 36]%N /\ jsix_like_to_regex [32; 45]%N = [94; 32; 45; 36]%N /\
+  parse_pattern Py [94; 97; 42; 36]%N = None /\ parse_pattern Js [94; 46; 42; 63; 36]%N = None /\ parse_pattern Js [94; 92; 45; 36]%N = None.
+Proof. vm_compute. repeat split. Qed.
+Print Assumptions C17_text_examples.
